@@ -60,6 +60,7 @@ STALL_DURATIONS = (0.1, 0.7, 2.5, 6.0, 12.0, 40.0)
 
 
 GC_EVERY = 256
+GC_AT_YIELD_POINTS = os.environ.get('VERIF_GC_AT_YIELD', '0') == '1'
 KDEBUG = os.environ.get('VERIF_KDEBUG')
 KSWITCHLOG = os.environ.get('VERIF_KSWITCHLOG')
 KNOWFROM = float(os.environ.get('VERIF_KNOWFROM', '1e18'))
@@ -250,7 +251,7 @@ class Kernel:
         if me is None or not self.active or self.killing:
             return
         self._gc_tick += 1
-        if self._gc_tick % GC_EVERY == 0:
+        if GC_AT_YIELD_POINTS and self._gc_tick % GC_EVERY == 0:
             gc.collect()
         sp = getattr(me, '_stall_p', None)  # a slow thread (per-thread stall probability) or the run's stall rate
         if sp is None:
@@ -327,8 +328,9 @@ def new_kernel(seed, **kw):
     # The cyclic garbage collector is a scheduler of its own: it runs finalizers and weak-reference callbacks (reactivex
     # disposables, pools) whenever an allocation counter inherited from the worker's earlier jobs crosses a threshold.
     # From here on it runs only at yield points, every GC_EVERY-th one: a function of the run's own history.
-    gc.collect()
-    gc.disable()
+    if GC_AT_YIELD_POINTS:
+        gc.collect()
+        gc.disable()
     return K
 
 
